@@ -196,42 +196,37 @@ def uncompute : M (List Nat) := do
     gatesComputed := keepRev.reverse.toArray }
   return unc
 
-/-- `remove_identities` on a gate list; `none` = IndexError (`result[-1]` on an empty list).
-Tuple equality: same gate object (gid), equal wires, equal param. -/
-def popBarrier (res : List AGate) : Option (List AGate) :=
+/-- `if result and isinstance(result[-1][0], Barrier): result.pop()` (result kept reversed) -/
+def popBarrier (res : List AGate) : List AGate :=
   match res with
-  | [] => none
-  | r :: rs => if r.cls == .Barrier then some rs else some res
+  | [] => []
+  | r :: rs => if r.cls == .Barrier then rs else res
 
-def removeIdentitiesLoop : Nat → List AGate → List AGate → Option (List AGate)
-  | 0, _, res => some res.reverse
-  | _, [], res => some res.reverse
+/-- `remove_identities` on a gate list.  Tuple equality: same gate object (gid), equal
+wires, equal param; only pairs of self-inverse gates are cancelled. -/
+def removeIdentitiesLoop : Nat → List AGate → List AGate → List AGate
+  | 0, _, res => res.reverse
+  | _, [], res => res.reverse
   | fuel+1, g :: rest, res =>
     match rest with
     | g1 :: rest1 =>
-      if g == g1 then
-        match popBarrier res with
-        | none => none
-        | some res' => removeIdentitiesLoop fuel rest1 res'
+      if g.cls.isSelfInverse && g == g1 then
+        removeIdentitiesLoop fuel rest1 (popBarrier res)
       else
         match rest1 with
         | g2 :: rest2 =>
-          if g == g2 && g1.cls == .Barrier then
-            match popBarrier res with
-            | none => none
-            | some res' => removeIdentitiesLoop fuel rest2 res'
+          if g.cls.isSelfInverse && g == g2 && g1.cls == .Barrier then
+            removeIdentitiesLoop fuel rest2 (popBarrier res)
           else removeIdentitiesLoop fuel rest (g :: res)
         | [] => removeIdentitiesLoop fuel rest (g :: res)
     | [] => removeIdentitiesLoop fuel rest (g :: res)
 
-def removeIdentitiesList (gs : List AGate) : Option (List AGate) :=
+def removeIdentitiesList (gs : List AGate) : List AGate :=
   removeIdentitiesLoop (gs.length + 1) gs []
 
 def removeIdentities : M Unit := do
   let qc ← getQC
-  match removeIdentitiesList qc.gates.toList with
-  | none => throw "IndexError: list index out of range (remove_identities)"
-  | some r => modQC fun qc => { qc with gates := r.toArray }
+  modQC fun q => { q with gates := (removeIdentitiesList qc.gates.toList).toArray }
 
 /-- loop of `uncompute_all` over `reversed(deepcopy(gates))`; `off` renumbers the copied gate
 objects; `alreadyFree` is the free set as it was when the loop started -/
